@@ -175,8 +175,12 @@ def unfold(root, mode, uf=None):
                 return "B"
             info["kind"] = "link-to-dir"
         elif stat.S_ISDIR(lst.st_mode):
-            info["kind"] = "dir"
             info["st"] = lst
+            if mode == "L" and (lst.st_dev, lst.st_ino) in ancestors:
+                # a directory reached again through a link further up: it closes the cycle just as a link to an ancestor does
+                info["kind"] = "loop"
+                return "B"
+            info["kind"] = "dir"
         else:
             info["kind"] = "file"
             info["st"] = lst
